@@ -199,8 +199,9 @@ class BuildLock:
         self.f.close()
 
 
-def build_all(jobs=16, clean=False):
-    """Full .vo build of the Coq development + extraction + driver. Returns (ok, log)."""
+def build_all(jobs=16, clean=False, targets=None):
+    """Full .vo build of the Coq development (targets=None) or of the given .vo targets and everything they depend on
+    (a property's cone + the extraction), then extraction + driver. Returns (ok, log)."""
     with BuildLock():
         log = []
         rc, out, _ = run([sys.executable, os.path.join(ROOT, "tools", "gen_registry.py")])
@@ -213,7 +214,8 @@ def build_all(jobs=16, clean=False):
         log.append(out)
         if rc != 0:
             return False, "\n".join(log)
-        rc, out, _ = run("timeout 3000 make -f Makefile.coq -j%d" % jobs, cwd=COQ, timeout=3100)
+        tg = "" if not targets else " " + " ".join(sorted(set(targets)))
+        rc, out, _ = run("timeout 3000 make -f Makefile.coq -j%d%s" % (jobs, tg), cwd=COQ, timeout=3100)
         log.append(out)
         if rc != 0:
             return False, "\n".join(log)
@@ -373,7 +375,11 @@ class Report:
 
 def coq_gate(rep, prop, cone_files, extra_property_files=()):
     """Build + hygiene + assumptions for a property. Failures become violations (no failing input yet)."""
-    ok, log = build_all()
+    # only this property's cone (and the extraction the driver is built from) is rebuilt: a proof obligation that breaks in the cone
+    # of another property must not raise an alarm here
+    targets = [f[:-2] + ".vo" for f in list(cone_files) + list(extra_property_files) if f.endswith(".v") and os.path.exists(os.path.join(COQ, f))]
+    targets += ["Properties/%s.vo" % prop, "Extract/Extract.vo"]
+    ok, log = build_all(targets=targets)
     if not ok:
         tail = "\n".join(log.split("\n")[-40:])
         rep.violation("Coq development does not build", {"kind": "proof-obligation", "broken": "make (full .vo build)", "log_tail": tail}, False,
